@@ -358,15 +358,19 @@ func (a *ASPathAttr) Decode(flags PathAttrFlags, b []byte) error {
 		}
 		set := b[:segLen]
 		if segType == 1 {
-			a.ASSet, err = decodeUint32Set(set)
+			var asns []uint32
+			asns, err = decodeUint32Set(set)
 			if err != nil {
 				return asPathMalformedErr()
 			}
+			a.ASSet = append(a.ASSet, asns...)
 		} else if segType == 2 {
-			a.ASSequence, err = decodeUint32Set(set)
+			var asns []uint32
+			asns, err = decodeUint32Set(set)
 			if err != nil {
 				return asPathMalformedErr()
 			}
+			a.ASSequence = append(a.ASSequence, asns...)
 		} else {
 			return asPathMalformedErr()
 		}
